@@ -121,7 +121,7 @@ def main():
                      "kind_free_text": "repository-specific static analyser over go/packages + go/ssa (x/tools v0.29.0): path facts, provenance, ownership, typestate, constants, linear bounds"}],
         "checks": checks,
         "not_applicable": na,
-        "notes": "All checks are static: they load /repo's current working tree, type-check it and analyse its SSA form; nothing in /repo is executed. thorough = same rules over the GOOS/GOARCH build matrix plus seeded-break self-validation of every rule.",
+        "notes": "All checks are static: they load /repo's current working tree, type-check it and analyse its SSA form; nothing in /repo is executed. thorough = same rules over the GOOS/GOARCH build matrix plus seeded-break self-validation of every rule plus an in-memory replay of the archived sub-agent changes of the property (seeded/: must be reported; benign/: must stay silent).",
     }
     json.dump(m, open(os.path.join(HERE, "MANIFEST.json"), "w"), indent=1)
     print("claimed:", sorted(CLAIMED), "not_applicable:", [x["property_id"] for x in na])
